@@ -35,6 +35,7 @@ type BDoc struct {
 	F1  []int `json:"f1"`
 	F2  []int `json:"f2"`
 	F3  []int `json:"f3"`
+	F4  []int `json:"f4"` // date field, single-valued: value v is dateOf(v), with a sub-second part
 	TFx int   `json:"tfx"`
 	TFz int   `json:"tfz"`
 	Pad int   `json:"pad"`
@@ -90,7 +91,16 @@ func (d BDoc) fields() map[string]interface{} {
 	if len(d.F3) > 0 {
 		m["f3"] = float64(d.F3[0])
 	}
+	if len(d.F4) > 0 {
+		m["f4"] = dateOf(d.F4[0])
+	}
 	return m
+}
+
+// dateOf: value v of the date field (sub-second part: date-typed sort keys are
+// RFC3339Nano strings in SearchAfter / SearchBefore cursors)
+func dateOf(v int) time.Time {
+	return time.Date(2020, 1, 1, 0, 0, v, 250000000+v*1000, time.UTC)
 }
 
 func bMapping() mapping.IndexMapping {
@@ -112,6 +122,11 @@ func bMapping() mapping.IndexMapping {
 	nf.IncludeInAll = false
 	nf.DocValues = true
 	dm.AddFieldMappingsAt("f3", nf)
+	df := bleve.NewDateTimeFieldMapping()
+	df.Store = false
+	df.IncludeInAll = false
+	df.DocValues = true
+	dm.AddFieldMappingsAt("f4", df)
 	body := bleve.NewTextFieldMapping()
 	body.Analyzer = simple.Name
 	body.Store = false
@@ -148,6 +163,11 @@ func bMappingMixed() mapping.IndexMapping {
 		nf.IncludeInAll = false
 		nf.DocValues = t.dv
 		dm.AddFieldMappingsAt("f3", nf)
+		df := bleve.NewDateTimeFieldMapping()
+		df.Store = false
+		df.IncludeInAll = false
+		df.DocValues = t.dv
+		dm.AddFieldMappingsAt("f4", df)
 		body := bleve.NewTextFieldMapping()
 		body.Analyzer = simple.Name
 		body.Store = false
@@ -207,7 +227,7 @@ func genIndex(rng *rand.Rand, kind string, ndocs int) BIndex {
 	rec := BIndex{Kind: kind}
 	vals := []int{0, 2, 4}
 	mk := func(id int) BDoc {
-		d := BDoc{ID: id, F1: []int{}, F2: []int{}, F3: []int{}}
+		d := BDoc{ID: id, F1: []int{}, F2: []int{}, F3: []int{}, F4: []int{}}
 		switch r := rng.Intn(10); {
 		case r < 2: // missing
 		case r < 7:
@@ -224,6 +244,9 @@ func genIndex(rng *rand.Rand, kind string, ndocs int) BIndex {
 		}
 		if rng.Intn(4) > 0 {
 			d.F3 = []int{2 + 2*rng.Intn(3)}
+		}
+		if rng.Intn(4) > 0 {
+			d.F4 = []int{2 + 2*rng.Intn(4)}
 		}
 		d.TFx = rng.Intn(4)
 		d.TFz = rng.Intn(3) / 2
@@ -355,13 +378,17 @@ func bField(f int) (string, search.SortFieldType) {
 		return "f2", search.SortFieldAsString
 	case 3:
 		return "f3", search.SortFieldAsNumber
+	case 4:
+		return "f4", search.SortFieldAsDate
 	}
 	return "f1", search.SortFieldAuto
 }
 
 func genSort(rng *rand.Rand, needTotal bool) []KeySpec {
 	mk := func() KeySpec {
-		switch rng.Intn(6) {
+		switch rng.Intn(7) {
+		case 6:
+			return KeySpec{Kind: "field", F: 4, Desc: rng.Intn(2) == 0, MFirst: rng.Intn(2) == 0, Mode: "first"}
 		case 0:
 			return KeySpec{Kind: "score", Desc: rng.Intn(3) > 0, Mode: "first"}
 		case 1:
@@ -498,7 +525,7 @@ func (g *bGroup) prepare(c *core.Ctx) error {
 		var seen []Match
 		for _, a := range arr {
 			d := g.live[a.ID]
-			seen = append(seen, Match{ID: a.ID, S: rankOf(sorted, a.Score), K: [][]int{d.F1, d.F2, d.F3}})
+			seen = append(seen, Match{ID: a.ID, S: rankOf(sorted, a.Score), K: [][]int{d.F1, d.F2, d.F3, d.F4}})
 		}
 		g.seen[bq.Name] = seen
 		g.score[bq.Name] = sm
@@ -526,6 +553,11 @@ func (g *bGroup) keyStrings(qname string, sortSpec []KeySpec, key []int) ([]stri
 				return nil, fmt.Errorf("numeric search-after key cannot name a missing value")
 			}
 			out[i] = strconv.Itoa(v)
+		case ks.F == 4:
+			if v == specLow || v == specHigh {
+				return nil, fmt.Errorf("date search-after key cannot name a missing value")
+			}
+			out[i] = dateOf(v).Format(time.RFC3339Nano)
 		default:
 			out[i] = keyString(ks, v)
 		}
@@ -564,8 +596,8 @@ func (g *bGroup) genRequest(rng *rand.Rand, qname string) (Request, []string) {
 		for i, ks := range rq.Sort {
 			v, ok := specKeyOfHit(ks, h)
 			if !ok {
-				if ks.F == 3 {
-					v = pick(rng, 1, 2, 3, 4, 5, 6, 7) // a numeric key cannot name "missing"
+				if ks.F == 3 || ks.F == 4 {
+					v = pick(rng, 1, 2, 3, 4, 5, 6, 7) // a numeric / date key cannot name "missing"
 				} else {
 					v = missingValue(ks)
 				}
@@ -591,6 +623,9 @@ type bObserved struct {
 	Total    int
 	MaxScore float64
 	Scores   []float64
+	// the last hit's sort key as the hit itself renders it for a cursor (DecodedSort
+	// where bleve provides it, else Sort)
+	LastCursor []string
 }
 
 func (g *bGroup) search(qname string, rq Request, keyStrs []string) (obs bObserved, err error) {
@@ -643,6 +678,10 @@ func (g *bGroup) search(qname string, rq Request, keyStrs []string) (obs bObserv
 		}
 		obs.Hits = append(obs.Hits, id)
 		obs.Scores = append(obs.Scores, h.Score)
+		obs.LastCursor = append([]string{}, h.Sort...)
+		if len(h.DecodedSort) == len(h.Sort) {
+			obs.LastCursor = append([]string{}, h.DecodedSort...)
+		}
 	}
 	return obs, nil
 }
@@ -662,7 +701,7 @@ func (g *bGroup) record(qname string, rq Request, obs bObserved) map[string]any 
 	}
 }
 
-var reusedRequests int64
+var reusedRequests, chainedCursors int64
 
 type bArtefact struct {
 	Index BIndex   `json:"index"`
@@ -729,6 +768,49 @@ func engineB(c *core.Ctx) error {
 				}
 				recs = append(recs, bRecord{Index: gi, Query: bq.Name, Rq: rq, KeyStrs: strs, Rec: g.record(bq.Name, rq, obs)})
 				c.Eval(1)
+				// "SearchAfter started from any hit": the page after the last hit of this answer,
+				// asked for with the cursor the hit itself carries; in model terms the cursor is
+				// that hit's sort key
+				if n := len(obs.Hits); n > 0 && rq.total() && len(obs.LastCursor) == len(rq.Sort) && rq.Mode != "before" {
+					var last *Match
+					for i := range g.seen[bq.Name] {
+						if g.seen[bq.Name][i].ID == obs.Hits[n-1] {
+							last = &g.seen[bq.Name][i]
+						}
+					}
+					if last != nil {
+						key := make([]int, len(rq.Sort))
+						nameable := true
+						for i, ks := range rq.Sort {
+							v, ok := specKeyOfHit(ks, *last)
+							if !ok {
+								if ks.F == 3 || ks.F == 4 {
+									nameable = false // a numeric / date cursor cannot name "missing"
+								}
+								v = missingValue(ks)
+							}
+							key[i] = v
+						}
+						if nameable {
+							// a score key is not carried by the hit's sort values (they hold the literal
+							// "_score", DESIGN 11.3 leads): the caller substitutes hit.Score
+							for i, ks := range rq.Sort {
+								if ks.Kind == "score" {
+									obs.LastCursor[i] = strconv.FormatFloat(obs.Scores[n-1], 'g', -1, 64)
+								}
+							}
+							rq2 := Request{Sort: rq.Sort, Size: rq.Size, Mode: "after", Key: [][]int{key}}
+							if rq2.Size == 0 {
+								rq2.Size = 2
+							}
+							if obs2, err := g.search(bq.Name, rq2, obs.LastCursor); err == nil {
+								recs = append(recs, bRecord{Index: gi, Query: bq.Name, Rq: rq2, KeyStrs: obs.LastCursor, Rec: g.record(bq.Name, rq2, obs2)})
+								c.Eval(1)
+								atomic.AddInt64(&chainedCursors, 1)
+							}
+						}
+					}
+				}
 				if len(g.seen[bq.Name]) >= 2 {
 					c.Distinct(fmt.Sprintf("B|%d|%s|%s", gi, bq.Name, core.Canon(rq)))
 				}
